@@ -9,5 +9,7 @@ cd /verif
 ./check "$ID" "$TIER" > /tmp/try_$ID.log 2>&1
 RC=$?
 git -C /repo checkout -- .
+# restore the committed Generated files (they were regenerated from the mutated tree)
+git -C /verif checkout -- coq/Generated 2>/dev/null
 echo "rc=$RC"
 grep -E "^VIOLATION|^KNOWN|PROOF BROKEN|done:" /tmp/try_$ID.log | cut -c1-300
